@@ -86,7 +86,12 @@ def main():
         fail = None
         if j % 8 == 6 and form not in ("missingdir",):
             # a run that fails half-way: the same rules bound what it may have touched by then
-            fail = rng.choice(["simd", "header-is-directory", "output-is-directory", "truncated-input", "reference-missing", "reference-garbage"])
+            fail = ["simd", "header-is-directory", "output-is-directory", "truncated-input", "reference-missing", "reference-garbage"][(j // 8) % 6]
+            # implementation files of an earlier build are lying around; mostly without -c (then nothing at all may vanish), in
+            # single-file and in multi-file mode
+            pre = pre + ["s0000000000.c", "d0000000009.c", "s0000000002.c"]
+            clean = (j // 8) % 5 == 4
+            perfile = perfile if (j // 8) % 2 else 0
         if j * 12 < len(nm):
             # every near-miss name is present in at least one run with the clean option
             pre, clean = nm[j * 12:(j + 1) * 12] + pre[-2:], True
